@@ -267,8 +267,12 @@ fn so_solvers() -> Vec<So> {
         So { name: "SA", class: Archive, shape: |_, _| (fixed(1, 1), true, None), run: |p, c, s| SASolver::new(c).with_seed(s).solve(p) },
         // a better local-search point is accepted only with probability `loudness`: the best may miss an evaluated point
         So { name: "Bat", class: Archive, shape: |_, _| (None, false, None), run: |p, c, s| BatSolver::new(c).with_seed(s).solve(p) },
-        // the scout phase evaluates a data-dependent number of points
-        So { name: "ABC", class: Archive, shape: |_, _| (None, true, None), run: |p, c, s| ABCSolver::new(c).with_seed(s).solve(p) },
+        // the scout phase evaluates a data-dependent number of points; and it runs BEFORE the
+        // "update best" pass of the cycle: a food source found and then tried > limit times by the
+        // onlookers of the same cycle is abandoned before its fitness is ever recorded, so the
+        // best may miss an evaluated point (thorough seed 1 case 2364: fitness 2.0 evaluated,
+        // best 9.0). The result predicates still hold; only "best = running minimum" does not.
+        So { name: "ABC", class: Archive, shape: |_, _| (None, false, None), run: |p, c, s| ABCSolver::new(c).with_seed(s).solve(p) },
         // positions written by the last iteration are never ranked
         So { name: "GSA", class: Archive, shape: |n, it| (fixed(n, n), true, Some(n + (it - 1) * n)), run: |p, c, s| GSASolver::new(c).with_seed(s).solve(p) },
         So { name: "HS", class: Greedy, shape: |n, _| (fixed(n, 1), true, None), run: |p, c, s| HSSolver::new(c).with_seed(s).solve(p) },
@@ -517,6 +521,11 @@ fn run_so(out: &mut Out, pools: &Pools, sv: &So, spec: &Spec, cfg: &SolverConfig
         out.count("penalty_active");
     }
     out.count_n("evaluations_logged", log1.len() as u64);
+    if log1.iter().any(|(_, f)| *f < r1.best_fitness) {
+        // allowed only for the solvers declared non-exact (Bat, ABC, Rao2/3, QORao2/3, SAPHR, GSA's last positions)
+        out.count("best_missed_an_evaluated_point");
+        out.count(&format!("best_missed_{}", sv.name));
+    }
 
     // Gallina case
     let (sched, exact, fin) = (sv.shape)(cfg.population_size, cfg.max_iterations);
